@@ -362,6 +362,32 @@ func c17BadUTF8(t *tape.Tape, doc []byte) []byte {
 	return append(out, doc[at:]...)
 }
 
+// c17SameShape returns doc with the lower-case letters inside its strings (outside
+// escapes) and its digits 1..8 replaced by others of the same kind.
+func c17SameShape(t *tape.Tape, doc []byte) []byte {
+	b := append([]byte(nil), doc...)
+	in := false
+	seed := t.Intn(1 << 16)
+	for i := 0; i < len(b); i++ {
+		c := b[i]
+		switch {
+		case in && c == '\\':
+			if i+1 < len(b) && b[i+1] == 'u' {
+				i += 5
+			} else {
+				i++
+			}
+		case c == '"':
+			in = !in
+		case in && c >= 'a' && c <= 'y' && (seed>>(uint(i)%13))&1 == 1:
+			b[i] = c + 1
+		case !in && c >= '1' && c <= '8' && (seed>>(uint(i)%11))&1 == 1:
+			b[i] = c + 1
+		}
+	}
+	return b
+}
+
 func c17Break(t *tape.Tape, doc []byte) []byte {
 	b := append([]byte(nil), doc...)
 	if len(b) == 0 {
@@ -439,10 +465,12 @@ func c17GenScenario(r *core.Run) *c17Scenario {
 			n = t.Range(10, 30)
 		}
 		live := [2]bool{}
+		var lastDoc [2][]byte
 		for j := 0; j < n; j++ {
 			k := t.Intn(2)
 			if !live[k] {
 				steps = append(steps, c17Step{Op: "new", Tok: k, Doc: doc()})
+				lastDoc[k] = steps[len(steps)-1].Doc
 				live[k] = true
 				continue
 			}
@@ -452,7 +480,14 @@ func c17GenScenario(r *core.Run) *c17Scenario {
 			case 1:
 				steps = append(steps, c17Step{Op: "drain", Tok: k})
 			case 2:
-				steps = append(steps, c17Step{Op: "reset", Tok: k, Doc: doc()})
+				d := doc()
+				if lastDoc[k] != nil && t.Chance(1, 3) {
+					// a record of the same shape as the previous document of this
+					// tokenizer: same length, same token boundaries, other letters
+					d = c17SameShape(t, lastDoc[k])
+				}
+				steps = append(steps, c17Step{Op: "reset", Tok: k, Doc: d})
+				lastDoc[k] = d
 			default:
 				steps = append(steps, c17Step{Op: "abandon", Tok: k})
 				live[k] = false
@@ -479,6 +514,7 @@ type tokState struct {
 	errSet bool
 	after  int
 	reused bool
+	in     []byte
 }
 
 type c17TaskRes struct {
@@ -567,25 +603,39 @@ func runC17(r *core.Run) {
 		tr := &results[task]
 		tr.faults = map[string]int64{}
 		var slots [2]tokState
+		// each tokenizer of the task is fed from one buffer of its own: the same
+		// address with new content at every new document
+		var arenas [2][]byte
+		load := func(k int, doc []byte) []byte {
+			if cap(arenas[k]) < len(doc) {
+				arenas[k] = make([]byte, 2*len(doc)+64)
+			}
+			b := arenas[k][:len(doc):len(doc)]
+			copy(b, doc)
+			return b
+		}
 		for j := range sc.Tasks[task] {
 			st := &sc.Tasks[task][j]
 			k := st.Tok & 1
 			s := &slots[k]
 			switch st.Op {
 			case "new":
-				*s = tokState{tok: json.NewTokenizer(st.Doc), d: docs[st]}
+				in := load(k, st.Doc)
+				*s = tokState{tok: json.NewTokenizer(in), d: docs[st], in: in}
 				tr.tokzs++
 			case "reset":
 				if s.tok == nil {
-					*s = tokState{tok: json.NewTokenizer(st.Doc), d: docs[st]}
+					in := load(k, st.Doc)
+					*s = tokState{tok: json.NewTokenizer(in), d: docs[st], in: in}
 				} else {
 					if s.errSet {
 						tr.faults["reset-after-error"]++
 					} else if !s.done && s.pos > 0 {
 						tr.faults["reset-mid-document"]++
 					}
-					s.tok.Reset(st.Doc)
-					*s = tokState{tok: s.tok, d: docs[st], reused: true}
+					in := load(k, st.Doc)
+					s.tok.Reset(in)
+					*s = tokState{tok: s.tok, d: docs[st], reused: true, in: in}
 				}
 				tr.tokzs++
 			case "abandon":
@@ -700,7 +750,10 @@ func c17Next(tr *c17TaskRes, s *tokState) (more bool) {
 		return false
 	}
 	tok := s.tok
-	doc := s.d.doc
+	doc := s.in // the bytes the tokenizer was given (a copy of s.d.doc at the slot's address)
+	if doc == nil {
+		doc = s.d.doc
+	}
 	if !s.done && !s.errSet {
 		// the bound is on reaching the end (or an error); calls made afterwards to
 		// check stickiness do not count
